@@ -412,6 +412,23 @@ theorem applyUpdate_frame (spec now : Val) (wasInsert : Bool) (u : Fields) (fs :
     · exact applyOpsPos_frame spec now wasInsert _ hw _ true _ fs d' h
     · exact applyOps_frame spec now wasInsert _ hw _ true fs d' h
 
+theorem updaterOf_positional {op : String} {u : Updater} (h : updaterOf op = some u) :
+    positionalOperators.contains op = true := by
+  simp only [updaterOf] at h
+  split at h
+  · rename_i e; subst e; decide +kernel
+  split at h
+  · rename_i e; subst e; decide +kernel
+  split at h
+  · rename_i e; subst e; decide +kernel
+  split at h
+  · rename_i e; subst e; decide +kernel
+  split at h
+  · rename_i e; subst e; decide +kernel
+  split at h
+  · rename_i e; subst e; decide +kernel
+  · cases h
+
 /-- an update without positional keys is the plain operator loop -/
 theorem applyUpdate_plain (spec now : Val) (wi : Bool) (kv : String × Val) (r : Fields) (d : Val)
     (hp : positionalUpdate (kv :: r) = false) :
